@@ -1351,15 +1351,31 @@ def c18_u5(ctx):
                 # a boolean variable: every definition is the closure test itself, `false`, or
                 # `true` assigned only where the mode is known to be acknowledged
                 forms = []
-                for vn, l, pj in f.var_places:
-                    if vn != simp(e)[1] or pj:
-                        continue
+                flag_locals = [(vn, l) for vn, l, pj in f.var_places if vn == simp(e)[1] and not pj]
+                mt = re.match(r"^_(\d+)$", simp(e)[1])
+                if not flag_locals and mt:
+                    flag_locals = [(simp(e)[1], int(mt.group(1)))]  # a flag temporary (`matches!(..)`)
+                for vn, l in flag_locals:
                     for dd in f.defs(l):
                         if dd[0] == "assign" and dd[3]["k"] == "use" and dd[3]["op"].get("k") == "const":
                             if dd[3]["op"].get("val") in (0, False):
                                 continue
                             ws = fl.at_stmt(dd[1], dd[2])
                             if ws and all(val_in(dict(w), "self.config.transmission_mode", {"Acknowledged"}) for w in ws):
+                                continue
+                            # `true` set on the true edge of the closure test itself (match guard / matches!)
+                            inner = []
+                            for sb2 in f.live_blocks():
+                                st2 = f.blocks[sb2]["term"]
+                                if st2["k"] != "switch" or sb2 not in dom.get(dd[1], ()) or sb2 == dd[1]:
+                                    continue
+                                g3 = _closure_guard_form(ctx, f, eb.operand(st2["discr"]))
+                                if g3 is None:
+                                    continue
+                                tr3 = st2["otherwise"] in dom.get(dd[1], ()) or st2["otherwise"] == dd[1] or any(v != 0 and (tb in dom.get(dd[1], ()) or tb == dd[1]) for v, tb in st2["targets"])
+                                inner.append((g3, tr3))
+                            if any(g3[0] == "ok" and tr3 for g3, tr3 in inner) and not any(g3[0] == "bad" for g3, tr3 in inner):
+                                forms.append(("ok", "flag set on the true edge of: " + [g3[1] for g3, tr3 in inner if g3[0] == "ok"][0]))
                                 continue
                             forms.append(("bad", "flag %s is set true outside the acknowledged mode" % vn))
                         elif dd[0] in ("assign", "call"):
